@@ -17,6 +17,7 @@ import (
 
 	"verifsim/sim/kern"
 	"verifsim/sim/simrt"
+	"verifsim/sim/simsync"
 )
 
 // Sites is the simgen report of the build this worker was compiled from.
@@ -186,9 +187,28 @@ func (w *lockedWriter) Write(p []byte) (int, error) {
 	return w.b.Write(p)
 }
 
+// curChooser is the choice source of the run in progress (nil: canonical run). sync.Map.Range of
+// the code under test draws its visiting order from it, lazily: the unchanged tree has no sync.Map,
+// so its choice vectors are what they were.
+var curChooser *Chooser
+
+func init() {
+	simsync.MapRangeMode = func() uint32 {
+		if curChooser == nil || kern.RaceLane {
+			return 0
+		}
+		return uint32(curChooser.Choose("maporder.sync.Map.Range", MapModes))
+	}
+}
+
 // RunLint executes actionlint on the world under the simulator.
 func RunLint(w *World, c *Chooser, o RunOpts) *LintResult {
 	res := &LintResult{}
+	curChooser = nil
+	if !o.Canonical {
+		curChooser = c
+	}
+	defer func() { curChooser = nil }()
 	var src kern.Source = c
 	if o.Canonical || c == nil {
 		src = kern.Zero{}
